@@ -447,6 +447,19 @@ func main() {
 		os.Exit(2)
 	}
 	r := &runner{sum: sum, distinct: map[string]bool{}}
+	if *one == "raw" {
+		r.verbose = true
+		for _, s := range loadRaw(*corpus) {
+			for _, vm := range []bool{false, true} {
+				r.runRaw(s, vm, false)
+				r.runRaw(s, vm, true)
+			}
+		}
+		for _, f := range sum.Failures {
+			fmt.Println(f.Key, "::", f.What)
+		}
+		return
+	}
 	if *one != "" {
 		r.verbose = true
 		for _, h := range loadHistories(filepath.Dir(*one)) {
@@ -480,6 +493,16 @@ func main() {
 			hh.Name = fmt.Sprintf("%s/vm=%v", h.Name, vm)
 			sum.Count("history corpus")
 			r.runHistory(hh)
+		}
+	}
+
+	// hand-written Cadence scenarios (no model prediction; health after every transaction)
+	for _, s := range loadRaw(*corpus) {
+		for _, vm := range []bool{false, true} {
+			for _, validate := range []bool{false, true} {
+				sum.Count("raw scenario run")
+				r.runRaw(s, vm, validate)
+			}
 		}
 	}
 
